@@ -177,3 +177,58 @@ theorem seen_onNext_fault (fault : Nat → Option Err) (script : List (Notif Int
   simpa [run, faultOf, ObsNil.run] using h
 
 end Ro.ObsPartial
+
+namespace Ro.ObsPartial
+open Ro Ro.ObsNil
+
+/-- what the three callbacks of a full observer (`NewObserver`) see of a gated script under a panic plan of the value
+    callback: a value whose invocation panics is replaced, in place, by the wrapped panic handed to the error callback -
+    and the stream goes on (the status word is not flipped: the listed C01/C07 finding, stated exactly) -/
+def pickFull (fault : Nat → Option Err) : Nat → List (Notif Int) → List (Notif Int)
+  | _, [] => []
+  | k, .next c v :: vs =>
+    (match fault k with
+     | none => Notif.next c v
+     | some p => Notif.error c (.observer p)) :: pickFull fault (k + 1) vs
+  | k, t :: vs => t :: pickFull fault k vs
+
+theorem seen_full_fault_aux (fault : Nat → Option Err) (script : List (Notif Int)) (s : St) (hs : s.status = 0) :
+    (script.foldl (step allCbs fault) s).trace = s.trace ++ pickFull fault s.calls (gate script) := by
+  induction script generalizing s with
+  | nil => simp [gate, pickFull]
+  | cons x xs ih =>
+    cases x with
+    | next c v =>
+      cases hf : fault s.calls with
+      | none =>
+        have hst : step allCbs fault s (.next c v) = { s with calls := s.calls + 1, trace := s.trace ++ [.next c v] } := by
+          simp [step, allCbs, hs, hf]
+        rw [List.foldl_cons, hst, ih { s with calls := s.calls + 1, trace := s.trace ++ [.next c v] } hs]
+        simp [gate, pickFull, hf, List.append_assoc]
+      | some p =>
+        have hst : step allCbs fault s (.next c v) = { s with calls := s.calls + 1, trace := s.trace ++ [.error c (.observer p)] } := by
+          simp [step, allCbs, hs, hf]
+        rw [List.foldl_cons, hst, ih { s with calls := s.calls + 1, trace := s.trace ++ [.error c (.observer p)] } hs]
+        simp [gate, pickFull, hf, List.append_assoc]
+    | error c e =>
+      have hst : step allCbs fault s (.error c e) = { s with status := 1, trace := s.trace ++ [.error c e] } := by
+        simp [step, allCbs, hs]
+      rw [List.foldl_cons, hst, closed_trace fault xs _ (by simp)]
+      simp [gate, pickFull]
+    | complete c =>
+      have hst : step allCbs fault s (.complete c) = { s with status := 2, trace := s.trace ++ [.complete c] } := by
+        simp [step, allCbs, hs]
+      rw [List.foldl_cons, hst, closed_trace fault xs _ (by simp)]
+      simp [gate, pickFull]
+
+theorem seen_full_fault (fault : Nat → Option Err) (script : List (Notif Int)) :
+    (run .full fault script).seen = pickFull fault 0 (gate script) := by
+  have h := seen_full_fault_aux fault script {} rfl
+  have hs : ∀ l : List (Notif Int), l.filter (sees .full) = l := by
+    intro l; induction l with
+    | nil => rfl
+    | cons a t ih => cases a <;> simp [List.filter, sees, ih]
+  simp only [run, faultOf, ObsNil.run, hs]
+  simpa using h
+
+end Ro.ObsPartial
